@@ -57,10 +57,85 @@ def wire_match (m):
   return W.match_fields(**m)
 
 
+def _prefix_mask (plen):
+  return 0 if plen <= 0 else (0xffffffff << (32 - plen)) & 0xffffffff
+
+
+# ---------------------------------------------------------------------------------------------------
+# One flow, several spellings.  ofp_match has room for more than a match says: address bits below the prefix, values
+# in wildcarded fields, wildcard counts 33..63 (= 32), fields whose prerequisite is absent.  None of it is part of the
+# match: two wire forms that differ only there describe the IDENTICAL match (ADD replaces, *_STRICT selects), and
+# subsumption / overlap / lookup look at the specified bits only.
+#   SPELL[id] = (kind of spelling, reference match = the specified fields with addresses cut to the prefix, wire form)
+# ---------------------------------------------------------------------------------------------------
+_WBITS = dict(in_port=W.OFPFW_IN_PORT, dl_vlan=W.OFPFW_DL_VLAN, dl_src=W.OFPFW_DL_SRC, dl_dst=W.OFPFW_DL_DST,
+              dl_type=W.OFPFW_DL_TYPE, nw_proto=W.OFPFW_NW_PROTO, tp_src=W.OFPFW_TP_SRC, tp_dst=W.OFPFW_TP_DST,
+              dl_vlan_pcp=W.OFPFW_DL_VLAN_PCP, nw_tos=W.OFPFW_NW_TOS)
+_WSHIFT = dict(nw_src=W.OFPFW_NW_SRC_SHIFT, nw_dst=W.OFPFW_NW_DST_SHIFT)
+
+def _spelled (specified, values=None, counts=None, unwild=()):
+  """wire match specifying `specified` (as W.match_fields), then: `values` written into fields the match does not
+  specify, `counts` = nw_src / nw_dst wildcard bit counts written as given (32..63 all mean any address), `unwild` =
+  wildcard bits cleared although the field's prerequisite (dl_type / nw_proto) is not specified"""
+  pm = W.parse_match(W.match_fields(**specified))
+  for f, v in (values or {}).items(): pm[f] = v
+  w = pm["wildcards"]
+  for f, n in (counts or {}).items(): w = (w & ~(0x3f << _WSHIFT[f])) | (n << _WSHIFT[f])
+  for f in unwild:
+    if f in _WSHIFT: w &= ~(0x3f << _WSHIFT[f])
+    else: w &= ~_WBITS[f]
+  pm["wildcards"] = w
+  return W.match(**pm)
+
+def _spellings ():
+  S = {}
+  IP = 0x0800
+  def prefix (sid, field, net, plen, host, kind=None):
+    ref = dict(dl_type=IP); ref[field] = (net & _prefix_mask(plen), plen)
+    S[sid] = (kind or ("canonical" if host == 0 else "nw-host-bits"), ref, _spelled({"dl_type": IP, field: ((net & _prefix_mask(plen)) | host, plen)}))
+  # address bits below the prefix: each prefix length x host part {0, lowest bit, highest host bit, all ones}
+  for fld, tag, net, plen in (("nw_src", "s24", 0x0a000000, 24), ("nw_src", "s31", 0x0a000000, 31), ("nw_src", "s1", 0x00000000, 1),
+                              ("nw_dst", "d8", 0x0a000000, 8), ("nw_dst", "d31", 0x0a000002, 31)):
+    hb = 32 - plen
+    for nm, host in (("0", 0), ("1", 1), ("h", 1 << (hb - 1)), ("f", (1 << hb) - 1)):
+      if nm in ("h", "f") and host in (0, 1): continue
+      prefix("%s.%s" % (tag, nm), fld, net, plen, host)
+  # other flows next to them: the neighbouring network (lowest network bit differs), with and without host bits; hosts
+  prefix("s24x.0", "nw_src", 0x0a000100, 24, 0); prefix("s24x.1", "nw_src", 0x0a000100, 24, 1)
+  prefix("s32.a", "nw_src", IP_A, 32, 0); prefix("s32.b", "nw_src", IP_B, 32, 0)
+  # "any address" spelt with counts above 32 / with an address left in the field; values left in wildcarded fields
+  S["C.63"] = ("nw-wildcard-count", dict(dl_type=IP), _spelled(dict(dl_type=IP), dict(nw_src=IP_A, nw_dst=0xffffffff), dict(nw_src=63, nw_dst=33)))
+  S["C.val"] = ("wildcarded-field-values", dict(dl_type=IP), _spelled(dict(dl_type=IP), dict(nw_src=IP_A, nw_dst=IP_B, in_port=1, dl_vlan=5, nw_proto=6,
+                                                                                       dl_src=MAC_A, tp_dst=80, nw_tos=8)))
+  S["A.val"] = ("wildcarded-field-values", dict(in_port=1), _spelled(dict(in_port=1), dict(dl_type=IP, dl_vlan=5, dl_dst=MAC_B, nw_src=IP_A, tp_src=1111,
+                                                                                      dl_vlan_pcp=3)))
+  # fields that count for nothing because their prerequisite is not specified, although their wildcard bit is clear
+  S["A.pre"] = ("fields-without-prerequisite", dict(in_port=1),
+                _spelled(dict(in_port=1), dict(nw_proto=6, nw_tos=8, nw_src=IP_A, nw_dst=IP_B, tp_src=1111, tp_dst=80),
+                         unwild=("nw_proto", "nw_tos", "nw_src", "nw_dst", "tp_src", "tp_dst")))
+  S["G.0"] = ("canonical", dict(dl_type=IP, nw_proto=47), _spelled(dict(dl_type=IP, nw_proto=47)))
+  S["G.tp"] = ("fields-without-prerequisite", dict(dl_type=IP, nw_proto=47), _spelled(dict(dl_type=IP, nw_proto=47), dict(tp_src=1111, tp_dst=80), unwild=("tp_src", "tp_dst")))
+  S["R.0"] = ("canonical", dict(dl_type=0x0806), _spelled(dict(dl_type=0x0806)))
+  S["R.pre"] = ("fields-without-prerequisite", dict(dl_type=0x0806), _spelled(dict(dl_type=0x0806), dict(nw_tos=8, tp_src=1, tp_dst=2), unwild=("nw_tos", "tp_src", "tp_dst")))
+  S["A.0"] = ("canonical", dict(in_port=1), _spelled(dict(in_port=1)))
+  S["C.0"] = ("canonical", dict(dl_type=IP), _spelled(dict(dl_type=IP)))
+  return S
+SPELL = _spellings()
+# quick tier: both address fields, a long, a short and a one-bit host part, every kind of spelling
+SPELL_QUICK = ("s24.0", "s24.1", "s24.f", "s24x.0", "s31.0", "s31.1", "d8.0", "d8.f", "s32.a", "s32.b", "C.0", "C.63", "A.0", "A.val", "A.pre", "G.0", "G.tp")
+# deepest search (three operations: install, replace / modify under another spelling, a third command under a third)
+SPELL_CORE = ("s24.1", "s24.f", "s32.a", "d8.0", "d8.f", "A.0", "A.pre", "C.63")
+SPELL_CORE_QUICK = ("s24.1", "s24.f", "s32.a", "d8.f", "A.pre")
+
+
+def wire_of (mid):
+  return SPELL[mid][2] if mid in SPELL else W.match_fields(**MATCHES[mid])
+
+
 def ref_match (pm):
   """Wire match (parsed dict) -> reference dict of specified fields, applying the specification's
   prerequisite rule (network fields only count under an IP/ARP dl_type, transport fields only under
-  TCP/UDP/ICMP)."""
+  TCP/UDP/ICMP).  Addresses are cut to their prefix (the bits below it are not part of the match)."""
   w = pm["wildcards"]
   m = {}
   bits = dict(in_port=W.OFPFW_IN_PORT, dl_vlan=W.OFPFW_DL_VLAN, dl_src=W.OFPFW_DL_SRC, dl_dst=W.OFPFW_DL_DST,
@@ -73,13 +148,28 @@ def ref_match (pm):
     if not w & W.OFPFW_NW_PROTO: m["nw_proto"] = pm["nw_proto"]
     for f, sh in (("nw_src", W.OFPFW_NW_SRC_SHIFT), ("nw_dst", W.OFPFW_NW_DST_SHIFT)):
       n = (w >> sh) & 0x3f
-      if n < 32: m[f] = (pm[f], 32 - n)
+      if n < 32: m[f] = (pm[f] & _prefix_mask(32 - n), 32 - n)
   if ip:
     if not w & W.OFPFW_NW_TOS: m["nw_tos"] = pm["nw_tos"]
     if m.get("nw_proto") in (1, 6, 17):
       if not w & W.OFPFW_TP_SRC: m["tp_src"] = pm["tp_src"]
       if not w & W.OFPFW_TP_DST: m["tp_dst"] = pm["tp_dst"]
   return m
+
+
+for _sid, (_k, _ref, _wire) in SPELL.items():
+  # the harness' own consistency: each wire form, read by the specification's rules, is the match it is a spelling of
+  assert ref_match(W.parse_match(_wire)) == _ref, _sid
+  MATCHES[_sid] = _ref
+
+
+def spell_ops (sids):
+  """the commands of the search over spellings: every command kind with every spelling, at one priority (priorities are
+  the main search's business); the ADDs ask for notification, so that every later removal is visible as a message too"""
+  ops = []
+  for sid in sids:
+    ops += [("add", sid, 1, "rem-idle"), ("add", sid, 1, "overlap"), ("mods", sid, 1), ("dels", sid, 1), ("mod", sid, 1), ("del", sid)]
+  return ops + [("del", "ALL"), ("rx", 1), ("rx", 2)]
 
 
 def out_ports (actions):
@@ -246,6 +336,7 @@ class World (object):
     self.ref = RefTable(capacity=capacity)
     self.xid = 10
     self.bad = []
+    self.spelt = {}           # id(reference entry) -> id of the spelling it was installed under
 
   def fail (self, clause, what): self.bad.append(("%s:%s" % (PID, clause), what))
   def nxid (self): self.xid += 1; return self.xid
@@ -281,6 +372,31 @@ class World (object):
       return ("raised",)
 
   def _apply (self, op):
+    """one operation; a command that fails while it meets (as the identical match of ADD / *_STRICT, or as an entry its
+    match subsumes) an entry installed under another spelling than its own is reported as such"""
+    mid = op[1] if op[0] in ("add", "mod", "mods", "del", "dels", "mod-out") else None
+    before = list(self.ref.entries)
+    out = self._apply1(op)
+    if mid is not None:
+      for e in self.ref.entries:
+        if e not in before: self.spelt[id(e)] = mid           # (Entry compares by identity)
+      if self.bad and not any("partial-overlap" in key for key, what in self.bad):
+        from mc.refs.reftable import identical, subsumes
+        m = MATCHES[mid]
+        if op[0] in ("add", "mods", "dels"): met = [e for e in before if identical(e.match, m) and e.priority == op[2]]
+        else: met = [e for e in before if subsumes(m, e.match)]
+        kind = lambda x: SPELL[x][0] if x in SPELL else "canonical"
+        kinds = set(); pairs = set()
+        for e in met:
+          other = self.spelt.get(id(e))
+          if other != mid: kinds |= set([kind(mid), kind(other)]); pairs.add(other)
+        kinds.discard("canonical")
+        if kinds:
+          self.bad = [("%s:%s:respelled:%s" % (PID, op[0], "+".join(sorted(kinds))),
+                       "command match %s = %s meets entries installed as %s: %s" % (mid, wire_of(mid).hex(), sorted(pairs), self.bad[0][1]))]
+    return out
+
+  def _apply1 (self, op):
     self.bad = []
     st, ref, now = self.st, self.ref, self.clock.now
     k = op[0]
@@ -321,25 +437,25 @@ class World (object):
         _, mid, prio, v = op
         flags, idle, hard = VARIANTS[v]
         acts = (W.a_set_vlan_vid(5) + W.a_output(2, 0)) if v == "tag" else W.a_output(2, 0)
-        st.feed(W.flow_mod(x, wire_match(MATCHES[mid]), W.OFPFC_ADD, acts, priority=prio, idle=idle, hard=hard,
+        st.feed(W.flow_mod(x, wire_of(mid), W.OFPFC_ADD, acts, priority=prio, idle=idle, hard=hard,
                            cookie=COOKIE[v], flags=flags))
         exp = ref.add(now, MATCHES[mid], prio, (2,), flags, idle, hard, COOKIE[v])
       elif k == "add-emerg":
-        st.feed(W.flow_mod(x, wire_match(MATCHES["A"]), W.OFPFC_ADD, W.a_output(2, 0), priority=1, flags=W.OFPFF_EMERG))
+        st.feed(W.flow_mod(x, wire_of("A"), W.OFPFC_ADD, W.a_output(2, 0), priority=1, flags=W.OFPFF_EMERG))
         exp = ref.add(now, MATCHES["A"], 1, (2,), W.OFPFF_EMERG)
       elif k in ("mod", "mods"):
         _, mid, prio = op
-        st.feed(W.flow_mod(x, wire_match(MATCHES[mid]), W.OFPFC_MODIFY_STRICT if k == "mods" else W.OFPFC_MODIFY,
+        st.feed(W.flow_mod(x, wire_of(mid), W.OFPFC_MODIFY_STRICT if k == "mods" else W.OFPFC_MODIFY,
                            W.a_output(3, 0), priority=prio, cookie=COOKIE["mod"]))
         exp = ref.modify(now, MATCHES[mid], prio, (3,), k == "mods", cookie=COOKIE["mod"])
       elif k == "mod-out":
         # out_port is a DELETE-only filter: a MODIFY carrying one behaves like a plain MODIFY
         _, mid, port = op
-        st.feed(W.flow_mod(x, wire_match(MATCHES[mid]), W.OFPFC_MODIFY, W.a_output(3, 0), priority=1, cookie=COOKIE["mod"], out_port=port))
+        st.feed(W.flow_mod(x, wire_of(mid), W.OFPFC_MODIFY, W.a_output(3, 0), priority=1, cookie=COOKIE["mod"], out_port=port))
         exp = ref.modify(now, MATCHES[mid], 1, (3,), False, cookie=COOKIE["mod"])
       elif k in ("del", "dels"):
         mid = op[1]; prio = op[2] if k == "dels" else 0
-        st.feed(W.flow_mod(x, wire_match(MATCHES[mid]), W.OFPFC_DELETE_STRICT if k == "dels" else W.OFPFC_DELETE, priority=prio))
+        st.feed(W.flow_mod(x, wire_of(mid), W.OFPFC_DELETE_STRICT if k == "dels" else W.OFPFC_DELETE, priority=prio))
         exp = ref.delete(now, MATCHES[mid], prio, k == "dels")
       elif k == "del-out":
         st.feed(W.flow_mod(x, wire_match({}), W.OFPFC_DELETE, out_port=op[1]))
@@ -425,7 +541,10 @@ class World (object):
       return ("rx", len(cands), [p for p, f in emitted])
     if real != ref.view(now):
       mine = ref.view(now)
-      extra = [r for r in real if r not in mine]; missing = [r for r in mine if r not in real]
+      extra = list(real); missing = []              # (multisets: the same row may be installed twice)
+      for r in mine:
+        if r in extra: extra.remove(r)
+        else: missing.append(r)
       self.fail("%s:table" % k, "%r: table differs from the specification's; only in switch %r; only in reference %r" % (op, extra, missing))
     return (k, len(real), [g[0] for g in got])
 
@@ -489,6 +608,13 @@ SWEEP_ROOTS = [
   (3, ROOTS[1], -1, "full"),
 ]
 
+# One flow, several spellings (SPELL): every command kind x every spelling against tables holding entries installed under
+# other spellings of the same flow, of nested flows and of neighbouring flows.
+SPELL_ROOTS = [
+  (),
+  (("add", "s24.1", 1, "rem-idle"), ("add", "s32.b", 1, "rem-idle"), ("add", "A.pre", 1, "rem-idle"), ("add", "d8.f", 1, "rem-idle"), ("add", "G.tp", 1, "rem-idle")),
+]
+
 def make_expand (root, capacity=None, selfsweep=None, ops=None):
   if ops is None: ops = OPS
   def expand (h):
@@ -537,18 +663,33 @@ def run (cfg):
               "that.  Searches: %s.  Every history of these searches (roots included) is closed by letting %.1f s pass without input "
               "(all sweeps in that span checked: entries with a timeout go at their first sweep after it with one flow-removed, "
               "the others stay), so each enumerated history is also checked for what an earlier sweep - one that found nothing, "
-              "something or everything expired - does to the later ones"
+              "something or everything expired - does to the later ones.  "
+              "One flow, several spellings: ofp_match has room for more than a match says, so the searches (plain switch, <=%d operations "
+              "from the empty table and from a table of five entries installed under non-canonical spellings%s) run {ADD+SEND_FLOW_REM, "
+              "ADD+CHECK_OVERLAP, MODIFY, MODIFY_STRICT, DELETE, DELETE_STRICT} x %d wire spellings of %d flows + DELETE all + both frames: "
+              "{nw_src, nw_dst} x prefix {/1, /8, /24, /31} x bits below the prefix {0, lowest, highest, all}, the neighbouring network, "
+              "the two hosts /32 inside them, any-address spelt with wildcard counts 33 / 63 and with addresses left in the field, "
+              "values left in wildcarded fields, wildcard bits cleared on fields whose prerequisite (dl_type, nw_proto) the match does not "
+              "give (IP without dl_type, transport ports under GRE, nw_tos / ports under ARP); two spellings of one flow are the identical "
+              "match for ADD / *_STRICT, and subsumption, overlap and lookup see the specified bits only"
               % (depth, len(OPS), "; ".join("capacity %d: <=%d operations from %s" % (c, max(1, depth + dd), "a populated table" if r else "the empty table")
                                            for c, r, dd in CAP_ROOTS),
                  " / ".join("%g" % o[1] for o in sops["full"] if o[0] == "run"),
                  "; ".join("expire_period %s, <=%d operations out of %d from %s" % ("default (2 s)" if p is None else "= %d s" % p, max(1, depth + dd), len(sops[a]),
                                                                                    "a table with idle, hard and permanent entries%s" % (" installed on both sides of a sweep" if any(o[0] == "run" for o in r) else "") if r else "the empty table")
-                           for p, r, dd, a in SWEEP_ROOTS), SETTLE))
+                           for p, r, dd, a in SWEEP_ROOTS), SETTLE,
+                 2, "; <=3 operations over %d spellings from the empty table" % len(cfg.pick(SPELL_CORE_QUICK, SPELL_CORE)),
+                 len(SPELL_QUICK) if cfg.quick else len(SPELL), len(set(repr(sorted(SPELL[x][1].items())) for x in (SPELL_QUICK if cfg.quick else SPELL)))))
   rep.bound = dict(depth=depth, operations=len(OPS), table_capacities=sorted(set(c for c, r, dd in CAP_ROOTS)) + ["default (0x7fffffff)"],
                    self_sweep=dict(expire_periods=["default"] + sorted(set(p for p, r, dd, a in SWEEP_ROOTS if p is not None)),
                                    operations=dict((a, len(sops[a])) for a in sops), settle_seconds=SETTLE,
                                    run_steps=[o[1] for o in sops["full"] if o[0] == "run"]))
+  rep.bound["spellings"] = dict(quick=list(SPELL_QUICK), thorough=sorted(SPELL), depth=2, deep=dict(spellings=list(cfg.pick(SPELL_CORE_QUICK, SPELL_CORE)), depth=3))
   rep.assumptions = ["clock steps are non-integral so no sweep lands exactly on a timeout boundary",
+                     "a match is the set of packets it describes together with its wildcard pattern: address bits below the prefix, values "
+                     "in wildcarded fields, wildcard counts above 32 and fields without their prerequisite are not part of it (they are "
+                     "neither compared by ADD / *_STRICT nor demanded back in flow-stats / flow-removed: read-back addresses are cut to "
+                     "the prefix before comparison)",
                      "among equal-priority overlapping entries a lookup may return either (specification leaves it open)",
                      "when idle and hard timeouts have both passed either removal reason is accepted",
                      "state key = whole real table (ages relative to now) + reference table + table capacity",
@@ -571,6 +712,11 @@ def run (cfg):
   for period, root, dd, alpha in SWEEP_ROOTS:
     bfs(make_expand(root, None, dict(period=period), sops[alpha]), max(1, depth + dd), rep, workers=cfg.workers, seed=cfg.seed,
         max_states=cfg.pick(400000, 2000000))
+  spell_sets = [(SPELL_QUICK if cfg.quick else tuple(sorted(SPELL)), r, 2) for r in SPELL_ROOTS] + [(cfg.pick(SPELL_CORE_QUICK, SPELL_CORE), (), 3)]
+  for sids, root, d in spell_sets:
+    bfs(make_expand(root, ops=spell_ops(sids)), d, rep, workers=cfg.workers, seed=cfg.seed, max_states=cfg.pick(400000, 2000000))
+  rep.extra["spelling_roots"] = [dict(spellings=list(sids), root=list(map(list, r)), depth=d) for sids, r, d in spell_sets]
+  rep.extra["spellings"] = dict((sid, dict(kind=SPELL[sid][0], wire=SPELL[sid][2].hex())) for sid in sorted(SPELL))
   rep.extra["self_sweep_roots"] = [dict(expire_period=p, root=list(map(list, r)), depth=max(1, depth + dd), operations=len(sops[a])) for p, r, dd, a in SWEEP_ROOTS]
   rep.extra["roots"] = [list(map(list, r)) for r in ROOTS]
   rep.extra["capacity_roots"] = [dict(capacity=c, root=list(map(list, r)), depth=max(1, depth + dd)) for c, r, dd in CAP_ROOTS]
